@@ -61,8 +61,13 @@ let run (obs : Buffer.t) (id : string) (routine : string) (et : string) (debug :
       let o = trsm_model debug left lower unit a b in
       let site = (match trsm_dispatch left lower unit a b with L3Call k -> i k.t_site | _ -> 0) in
       let m = if left then i b.rows else i b.cols in
-      pr "S %s routine=trsm site=%d wf=%d conform=%d crit=0\n" id site (if wf_matb a && wf_matb b then 1 else 0)
-        (if i a.rows = m && i a.cols = m then 1 else 0);
+      (* certified by C13_trsm_criterion_sound: the call passes trsm_implements_b; or there is nothing to solve *)
+      let crit = (match o with
+                  | L3Call k -> trsm_implements_b left lower unit k a b
+                  | L3NoCall -> i b.rows = 0
+                  | _ -> false) in
+      pr "S %s routine=trsm site=%d wf=%d conform=%d crit=%d\n" id site (if wf_matb a && wf_matb b then 1 else 0)
+        (if i a.rows = m && i a.cols = m then 1 else 0) (if crit then 1 else 0);
       (match o with
        | L3NoCall -> pr "O %s outcome=ok why=-\n" id
        | L3Abort -> pr "O %s outcome=abort why=assert\n" id
